@@ -71,6 +71,11 @@ class BuiltinsMixin:
         if not pos:
             return INT(0)
         v = pos[0]
+        if v.doc:
+            self.site('S-kind', node, 'violation',
+                      'the value of parameter %s, documented as float, is '
+                      'converted with int(): fractional values are truncated '
+                      'silently' % v.doc.split(':')[-1])
         if v.has_const() and isinstance(v.c, (int, float, bool)):
             try:
                 return INT(int(v.c))
